@@ -79,10 +79,10 @@ PROPERTIES = {
     },
     'C13': {
         'rules': ['RF5', 'RF6', 'PDO', 'RF14'],
-        'technique': 'interval analysis of mapping-table subscripts, non-null dataflow on the synchronous-RPDO table',
-        'explanation': 'RF6: every subscript of CO_RPDO.Map/Size (including the dummy expansion Map[on+dummy]) and of the '
-                       'SYNC tables is in range; RF5: Sync.RPdo[i] is tested before it is dereferenced.',
+        'technique': 'decision-table extraction (CORPdoCheck, CORPdoRx, layout with dummy entries), must-facts (NMT gate, pending marker), registration-bit typestate, interval analysis of mapping-table subscripts, non-null dataflow on the synchronous-RPDO table',
+        'explanation': 'CORPdoCheck matches only enabled RPDOs with an equal identifier and searches past disabled channels; CORPdoRx: application veto respected, asynchronous written at once, synchronous buffered; synchronous application only in OPERATIONAL and only for a pending frame; payload layout: producer CORPdoGetMap and consumer CORPdoWrite agree on dummy entries (little-endian field starts after the dummy width); SYNC registration typestate; RF6 on CO_RPDO.Map/Size and the SYNC tables; RF5 on Sync.RPdo[i]; element consistency.',
         'not_decided': 'field values written',
+        'not_decided': 'values written by user-defined object types',
     },
     'C02': {
         'rules': ['SDO2', 'SDO', 'RF14'],
@@ -193,39 +193,38 @@ PROPERTIES = {
     },
     'C10': {
         'rules': ['RF3', 'NMT', 'TMR', 'HB', 'RESET'],
-        'explanation': 'Static typestate analysis of every timer handle (create/delete/store sites, all CFG paths, '
-                       'callee summaries): no armed heartbeat handle is overwritten (H1) and no function leaves a '
-                       'handle holding a deleted id (H2, all handles: a stale id is how another service deletes the '
-                       'heartbeat action).',
-        'not_decided': 'tick-exact heartbeat schedule',
+        'explanation': 'RF3 for CO_NMT.Tmr and every other handle (H1 no armed handle overwritten, H2 no handle keeps a deleted id, H5 a one-shot callback redefines its own expired handle on every path - a stale id is how another service deletes the heartbeat action); 1017h write rule (delete before create, cyclic with the written period, zero stops, refused write changes nothing); heartbeat frame template (700h+node id, one byte, state byte from the table); NMT gate of the producer; state-byte table both directions; timer action chain shape (RF11) because a dangling tail pointer delays or loses the heartbeat action; RF9a: the producer action is re-established by reset communication (known finding).',
+        'not_decided': 'tick-exact heartbeat schedule (timer delta arithmetic, see C07)',
+        'technique': 'timer-handle typestate dataflow with callee summaries and requirement propagation; decision-table extraction by partial evaluation of the handlers over input classes; must-facts at transmission sites',
     },
     'C11': {
         'rules': ['RF3', 'HB', 'RF5', 'NMT'],
-        'explanation': 'Timer-handle typestate for CO_HBCONS.Tmr: re-arm deletes first, deactivation deletes, no armed '
-                       'handle overwritten on any path.',
-        'not_decided': 'timeout timing',
+        'explanation': 'RF3 for CO_HBCONS.Tmr (re-arm deletes first, deactivation deletes, no armed handle overwritten, the one-shot monitor redefines its handle); activation table (duplicate node refused, unlink by identity, event counter and last state reset together with the configuration, accepted path stores exactly the configuration); monitor timeout (event counter +1, callback with the node id, one-shot re-arm with the consumer time, last state untouched); frame check (delete-then-create re-arm, change callback iff the state differs, foreign identifiers ignored); last-state ownership (who may write CO_HBCONS.State); state-byte decode table for all defined bytes and a sample of undefined ones; RF5 on the consumer chain.',
+        'not_decided': 'timeout timing; interleaving of monitor expiry with reception',
+        'technique': 'timer-handle typestate dataflow with callee summaries and requirement propagation; decision-table extraction by partial evaluation of the handlers over input classes; must-facts at transmission sites',
     },
     'C12': {
         'rules': ['RF3', 'RF6', 'PDO', 'RF14', 'PDOCFG'],
-        'explanation': 'Timer-handle typestate for CO_TPDO.EvTmr/InTmr and the verified invariant '
-                       '"(Flags & I) == 0 <=> InTmr released" (establish / arm / release obligations).',
-        'not_decided': 'emission timing multiset',
+        'explanation': 'Transmission gates of COTPdoTx by must-facts (NMT, COB-ID valid, inhibit); RF3 H1/H2/H4/H5 for EvTmr/InTmr with the verified invariant (Flags & I) == 0 <=> InTmr released; transmission-type tables of COTPdoReset; SYNC counting (one increment per recognised SYNC for each registered TPDO, type n sends when the counter reaches n and restarts, type 0 every SYNC); TX/RX SYNC-table separation; SYNC registration bit typestate (COSyncAdd / COSyncRemove pairing with the S flag); live event-time write table for every value including 0; RF6 on Map[]/Size[] and the SYNC tables; element consistency of pdo[num].',
+        'not_decided': 'emission timing multiset; payload bytes beyond the mapping layout',
+        'technique': 'timer-handle typestate dataflow with callee summaries and requirement propagation; decision-table extraction by partial evaluation of the handlers over input classes; must-facts at transmission sites; interval analysis of the mapping tables',
     },
     'C16': {
         'rules': ['RF3', 'SYNC', 'PDO', 'RESET'],
-        'explanation': 'Timer-handle typestate for CO_SYNC.Tmr including release before re-initialisation on reset.',
+        'explanation': '1005h and 1006h write rules with rollback (value based), cache coherence of Sync.CobId / Sync.Cycle with the dictionary, refusal changes nothing, producer started / stopped exactly when bit 30 changes and after the cache is updated; recognition identifier == CobId & 1FFFFFFFh for every DLC; producer send gate and zero-length frame; cycle -> ticks path (cyclic timer, start == cycle); RF3 for CO_SYNC.Tmr; SYNC registration typestate; RF9a/RF3-H1/H3: producer and cached identifier after reset communication (known findings).',
         'not_decided': 'period exactness',
+        'technique': 'timer-handle typestate dataflow with callee summaries and requirement propagation; decision-table extraction by partial evaluation of the handlers over input classes; must-facts at transmission sites',
     },
     'C19': {
         'rules': ['RF3', 'CSDO', 'RF14'],
-        'explanation': 'Timer-handle typestate for CO_CSDO_TRANSFER.Tmr and the verified invariant '
-                       '"State != BUSY => Tfer.Tmr released".',
-        'not_decided': 'data equality',
+        'explanation': 'Finalise-once shape (callback once, state IDLE, timeout action released: RF3 H1/H2/H4 State != BUSY => Tfer.Tmr released, H5); busy / invalid client refuses a request before any field is written; request frames (command byte, announced size); per-frame refresh and selection of a busy client with the matching identifier (for every configured client); response routing table per transfer type incl. abort for a foreign multiplexer; toggle discipline; download segment templates for every boundary of the remaining length (w = min(r,7), n = 7-w, c iff r <= 7); every store into the user buffer dominated by index < Tfer.Size (RF6e); timeout abort frame 0504 0000h; element consistency of csdo[n].',
+        'not_decided': 'payload equality; timing of the timeout',
+        'technique': 'timer-handle typestate dataflow with callee summaries and requirement propagation; decision-table extraction by partial evaluation of the handlers over input classes; must-facts at transmission sites; relational must-facts for the user-buffer bound',
     },
     'C20': {
         'rules': ['RF3', 'RESET', 'LSS', 'EMCY', 'SDO'],
-        'explanation': 'Release-on-reset: every handle overwritten by a re-initialisation called from CONmtReset is '
-                       'released first (requirement propagation over call chains).',
-        'not_decided': 'trace equivalence',
+        'explanation': 'RF3-H3: reset communication releases every instance of all seven timer handles (H1: no re-initialisation overwrites an armed handle); RF9a: every activation effect of CONodeInit (timer with callback X, consumer / producer activation, cached identifier, servers / clients enabled) is re-established by CONmtReset; RF9b: every service record initialised by CONodeInit is re-initialised or reset on every reset-communication path; RF9c: the timer pool reset is not reachable from CONmtReset (application timers survive); LSS: stored configuration loaded before servers and boot-up; SDO servers: COSdoReset resets every dispatcher-consulted field (RF12b); EMCY: the silent reset covers every active error number and every class counter. Thirteen known findings (reset-communication cluster).',
+        'not_decided': 'trace equivalence with a fresh node',
+        'technique': 'typestate release-on-reset with loop summaries over semantically recognised counted loops and list walks; init / reset effect agreement over the exactly resolved call graph; decision tables of the reset paths',
     },
 }
